@@ -420,9 +420,8 @@ prop(
     "Editor kernels (find_word_next, find_word_back, count_chars_bytes, insert_char_index, remove_char_index) on every string of "
     "<= 2 characters (3 in thorough) over {a, space, +, e-acute, grinning face} (enumerated concretely inside the harness so UTF-8 "
     "decoding constant-folds) x every cursor in [0, #chars] x both word modes (symbolic, solver-decided): results are character "
-    "indexes within the line and equal a reference editor on a char vector; get_next_command splits a submitted line at ';'.",
-    "handle_key's own glue (cursor +-1, history index arithmetic) is read, not executed symbolically (a heap String with a symbolic key "
-    "did not finish, DESIGN.md section 3); longer lines; history files; terminal rendering.",
+    "indexes within the line and equal a reference editor on a char vector.",
+    "get_next_command (its `find` runs core's memchr: out of memory even for 2-byte lines); longer lines; history files; terminal rendering.",
     ["char::is_whitespace / is_alphanumeric replaced by their exact answers on the 5-character alphabet"],
 )
 for n in (0, 1, 2):
@@ -434,9 +433,7 @@ H("C20", "debugger::command::reader::terminal::verif_h::c20_kernels_len3", TERMF
   stubs=["char::is_whitespace / char::is_alphanumeric -> exact answers on the alphabet"],
   functions=["find_word_next", "find_word_back", "count_chars_bytes", "insert_char_index", "remove_char_index"],
   what="all 125 strings of 3 characters x every cursor x both word modes", bounds="3 characters")
-for n in (1, 2, 3):
-    H("C20", f"debugger::command::reader::terminal::verif_h::c20_next_command_split_len{n}", TERMF, tier=("quick" if n == 2 else "thorough"), covers=1, timeout=2400,
-      functions=["Terminal::get_next_command"], what=f"submitted line of {n} bytes over {{a, ';', space}} split at ';'", bounds=f"{n} bytes")
+# (get_next_command's `find(';')` goes through core's memchr: 1.7 M symex steps for a 2-byte line, out of memory -- not registered)
 
 # ------------------------------------------------------------------ C15
 EVALF = "src/debugger/eval.rs"
@@ -563,3 +560,54 @@ H("C11", "parser::verif_h::c17_statement_span_and_break", PAR, covers=2, stubs=P
   functions=["AsmParser::parse", "Breakpoints::insert"], what=".break marks the next statement's index, occupies no word, is flagged predefined", bounds="one statement")
 H("C17", "debugger::asm::verif_h::c17_source_statement_lookup", ASMF, covers=3, timeout=2400, functions=["AsmSource::get_source_statement", "AsmSource::get_single_line"],
   what="address -> statement (address - origin) or nothing; shown text = statement span", bounds="<= 3 statements; 8-byte source")
+
+NAMEF = "src/debugger/command/parse/name.rs"
+H("C14", "debugger::command::parse::name::verif_h::c14_names_main_table", NAMEF, covers=1, timeout=3000, mem_gb=24,
+  functions=["find_name_match", "name_matches", "COMMANDS"], what="every name/alias of the real command table in every letter case (symbolic case mask) resolves to "
+  "its command, no name is shadowed; every misspelling gives a suggestion", bounds="the table as compiled; names <= 24 bytes")
+H("C14", "debugger::command::parse::name::verif_h::c14_names_subcommands", NAMEF, covers=0, timeout=3000, mem_gb=24,
+  functions=["find_name_match", "name_matches", "SUBCOMMANDS_STEP", "SUBCOMMANDS_BREAK"], what="step / break subcommand tables, symbolic case mask", bounds="the tables as compiled")
+
+RUNLOOP_STUBS = [FMT, SYM, PRINT, EXIT, "Debugger::next_action -> its contract (Proceed only from an executable PC; decided by c10_running_* / c10_cmd_*)",
+                 "RunState::execute -> probe that checks (instr == mem[PC], PC+1) and ends the path"]
+for pp in ("C16", "C09", "C10"):
+    H(pp, "runtime::verif_h::c16_run_loop_proceed_executes", RT, uf=True, covers=1, stubs=RUNLOOP_STUBS, timeout=3000, mem_gb=24,
+      allow_unsat=["run() returned"],
+      functions=["RunEnvironment::run (debugger branch)", "SignificantInstr::try_from", "RunState::check_pc_bounds", "Debugger::increment_instruction_count"],
+      what="one iteration of the real run loop with a debugger attached, next_action answering Proceed per its contract: the loop executes exactly mem[PC] "
+           "and does not come back to the debugger without executing (no spinning)", bounds="one iteration from an arbitrary machine")
+for pp in ("C09", "C16"):
+    H(pp, "runtime::verif_h::c09_run_loop_exit_program", RT, uf=True, covers=1, stubs=RUNLOOP_STUBS, timeout=3000, mem_gb=24, tier="thorough",
+      allow_unsat=["in-bounds instruction"],
+      functions=["RunEnvironment::run (debugger branch)"], what="next_action answering ExitProgram: run() returns with the machine untouched", bounds="one iteration")
+
+for nm, what in [("c15_eval_ret_real", "eval RET with the real VM: PC becomes R7, nothing else changes"),
+                 ("c15_eval_jmp_real", "eval JMP r with the real VM: PC becomes r")]:
+    H("C15", f"debugger::eval::verif_h::{nm}", EVALF, uf=True, covers=1, timeout=3000, mem_gb=24,
+      stubs=[FMT, SYM, PRINT, EXIT, "AsmParser::new_simple -> parser over the harness's token vector", "RunState::trap / RunState::stack -> path cut (not reachable from RET/JMP)",
+             "error::parse_generic_unexpected / parse_lit_range / parse_eof -> contract stubs"],
+      functions=["eval_inner", "RunState::execute", "RunState::jmp", "AsmLine::emit"], what=what, bounds="one eval")
+H("C17", "debugger::asm::verif_h::c17_show_single_line_multibyte", ASMF, covers=1, timeout=2400, stubs=[FMT, "Output::print_fmt -> capture sink (both channels)"],
+  functions=["AsmSource::show_single_line", "AsmSource::get_source_statement"], what="assembly <addr> (minimal) prints exactly the statement's bytes when multi-byte characters precede it",
+  bounds="fixed 12-byte source with a 2-byte and a 4-byte character; 2 statements; symbolic origin")
+for w in ("push", "pop", "call", "rets"):
+    H("C18", f"lexer::verif_h::c18_gate_case_{w}", LEX, tier=("quick" if w in ("push", "rets") else "thorough"), covers=2, stubs=[FMT], timeout=3000, mem_gb=24,
+      functions=["Cursor::advance_token", "Cursor::ident", "Cursor::check_instruction", "features::stack"],
+      what=f"'{w}' in every letter case (symbolic case mask) as source text: accepted iff the flag is on", bounds="one token")
+H("C18", "runtime::verif_h::c03_load_place_3000_2", RT, covers=2, stubs=[EXIT], functions=["RunEnvironment::from_raw"], timeout=1500,
+  what="loading with the feature cell uninitialised: the initial machine (R7 = 0xFDFF ...) does not consult the flag", bounds="origin 0x3000, 2 words")
+H("C19", "symbol::verif_h::c19_sequence_after_reset", SYMF, covers=2, stubs=[FMT, SYM], functions=["reset_state", "Label::insert", "Label::filled", "Label::try_fill"],
+  what="define/resolve ab; reset; define ab elsewhere (or not): resolution follows the second source only", bounds="label 'ab', symbolic lines")
+H("C05", "parser::verif_h::c01_pe_br_lit", PAR, covers=1, stubs=PE_STUBS, timeout=1500, functions=PE_FUNCS,
+  what="BR #lit at every line number incl. 65535: no overflow", bounds="one statement")
+H("C09", "debugger::command::reader::stdin::verif_h::c14_transport_multibyte", STDINF, covers=1, timeout=3000, mem_gb=24,
+  stubs=["Stdin::read_byte -> next byte of the harness's byte queue"], functions=["Argument::read", "Stdin::read"],
+  what="a script with a multi-byte character reaches the debugger intact through both transports", bounds="3 bytes")
+
+for nm, q in [("char_len1", True), ("backspace_len2", False), ("delete_len2", False), ("left_right_len1", False), ("right_len1", False),
+              ("ctrl_left_len2", False), ("ctrl_right_len2", True), ("up_len1", False), ("down_len1", False), ("enter_len2", True)]:
+    H("C20", f"debugger::command::reader::terminal::verif_h::c20_key_{nm}", TERMF, tier=("quick" if q else "thorough"), covers=1, timeout=3000, mem_gb=24,
+      stubs=["char::is_whitespace / char::is_alphanumeric -> exact answers on the alphabet"],
+      functions=["Terminal::handle_key", "Terminal::update_next", "Terminal::get_current", "find_word_next", "find_word_back", "insert_char_index", "remove_char_index"],
+      what=f"one handle_key step ({nm}) from every editor state of the bound: cursor in [0,#chars], buffer/cursor/submission equal the reference editor",
+      bounds="buffers of exactly 1 or 2 characters over the 5-character alphabet (enumerated), every cursor, empty history; typed character symbolic")
